@@ -94,6 +94,8 @@ def parse(path: str, dialect: DialectType = None) -> exp.JSONPath:
         if _match(TokenType.PLACEHOLDER) or _match(TokenType.L_PAREN):
             script = _prev().text == "("
             start = i
+            if start >= size:
+                raise ParseError(_error("Expected a filter or script expression"))
 
             while True:
                 if _match(TokenType.L_BRACKET):
